@@ -140,12 +140,12 @@ Definition ptag (d : pkd) : N :=
   | PHpke false _ => 22 | PHpke true _ => 23 | PStreamGcmHkdf _ _ _ => 24 | PStreamCtrHmac _ _ _ _ _ => 25
   | PJwtHmac _ _ => 26 | PJwtEcdsa false _ _ => 27 | PJwtEcdsa true _ _ => 28 | PJwtRsaPub _ _ _ => 29
   | PJwtRsaPriv _ _ _ _ _ _ _ _ => 30 | PJwtMlDsaPub => 31 | PMlDsaPub => 32
-  | PSlhDsa false => 33 | PSlhDsa true => 34
+  | PSlhDsa false => 33 | PSlhDsa true => 34 | PMlDsaPriv => 35 | PJwtMlDsaPriv => 36
   | PFallback _ => 0
   end.
 
 (* ... and the kind registered for a type URL (protoserialization's parser
-   table for the 37 transcribed key types; any other URL: the fallback key) *)
+   table for the 39 transcribed key types; any other URL: the fallback key) *)
 Definition url_tag (u : bytes) : N :=
   if beq u u_hmac then 1 else if beq u u_aes_cmac then 2 else if beq u u_aes_gcm then 3
   else if beq u u_aes_gcm_siv then 4 else if beq u u_aes_ctr_hmac then 5 else if beq u u_aes_siv then 6
@@ -162,12 +162,13 @@ Definition url_tag (u : bytes) : N :=
   else if beq u u_jwt_rsa_pkcs1_priv then 30 else if beq u u_jwt_rsa_pss_priv then 30
   else if beq u u_jwt_mldsa_pub then 31 else if beq u u_mldsa_pub then 32
   else if beq u u_slhdsa_pub then 33 else if beq u u_slhdsa_priv then 34
+  else if beq u u_mldsa_priv then 35 else if beq u u_jwt_mldsa_priv then 36
   else 0.
 
 (* what the serializer of a kind writes: the material type ... *)
 Definition memt (t : N) (l : list N) : bool := existsb (N.eqb t) l.
 Definition symmetric_tags : list N := [1; 2; 3; 4; 5; 6; 7; 8; 9; 14; 15; 16; 24; 25; 26].
-Definition private_tags : list N := [11; 18; 19; 21; 23; 28; 30; 34].
+Definition private_tags : list N := [11; 18; 19; 21; 23; 28; 30; 34; 35; 36].
 Definition public_tags : list N := [10; 12; 13; 17; 20; 22; 27; 29; 31; 32; 33].
 Definition material_of_tag (t label : N) : N :=
   if memt t symmetric_tags then km_symmetric
@@ -181,12 +182,12 @@ Definition prefix_of_class (c p : N) : N :=
   if c =? 1 then (if p =? pt_legacy then pt_crunchy else p) else if c =? 2 then pt_raw else p.
 
 Lemma out_material_tag e : out_material e = material_of_tag (ptag (ekey e)) (emat e).
-Proof. unfold out_material. destruct (ekey e) as [| | | | | | | | | | | | | | | | | | |[]|[]| | | |[]| | | | |[]|]; reflexivity. Qed.
+Proof. unfold out_material. destruct (ekey e) as [| | | | | | | | | | | | | | | | | | |[]|[]| | | |[]| | | | |[]| | |]; reflexivity. Qed.
 
 Lemma shown_prefix_tag e : shown_prefix e = prefix_of_class (class_of_tag (ptag (ekey e))) (eprefix e).
 Proof.
   unfold shown_prefix, out_prefix.
-  destruct (ekey e) as [| | | | | | | | | | | | | | | | | | |[]|[]| | | |[]| | | | |[]|]; reflexivity.
+  destruct (ekey e) as [| | | | | | | | | | | | | | | | | | |[]|[]| | | |[]| | | | |[]| | |]; reflexivity.
 Qed.
 
 (* the material type and the prefix type written for a key of type URL u that
@@ -205,7 +206,7 @@ Ltac rhs_compute :=
   match goal with |- _ = ?r => let v := eval vm_compute in r in change r with v end.
 
 (* at a leaf: the constructor is known, and so is the URL (or that it is none
-   of the 37) *)
+   of the 39) *)
 Ltac tag_done :=
   cbn [ptag]; unfold url_is in *;
   first [ match goal with H : beq (kd_url _) _ = true |- _ => apply beq_eq in H; rewrite H end;
@@ -235,7 +236,7 @@ Proof.
     parse_ecies_pub, parse_ecies_priv, parse_hpke_pub, parse_hpke_priv,
     parse_stream_gcm_hkdf, parse_stream_ctr_hmac, parse_jwt_hmac, parse_jwt_ecdsa_pub, parse_jwt_ecdsa_priv,
     parse_jwt_rsa_pub, parse_mldsa_pub, parse_slhdsa_pub, parse_slhdsa_priv,
-    parse_jwt_rsa_priv, parse_jwt_mldsa_pub, ed25519_from_seed.
+    parse_jwt_rsa_priv, parse_jwt_mldsa_pub, parse_mldsa_priv, parse_jwt_mldsa_priv, ed25519_from_seed.
   cbv zeta. tagk.
 Qed.
 
@@ -414,21 +415,9 @@ Theorem aead_rejects_then_error k b ad ct : decode_encrypted b = Some ct -> aead
   read_encrypted k b ad = Err.
 Proof. apply wrong_kek_rejected. Qed.
 
-(* laws of an (ideal) AEAD: decryption inverts encryption, and only under
-   the same key and associated data *)
+(* the one law used below: decryption inverts encryption under the same key and
+   associated data (correctness of the key-encryption AEAD) *)
 Hypothesis aead_correct : forall k iv pt ad, aead_dec k (aead_enc k iv pt ad) ad = Some pt.
-Hypothesis aead_auth : forall k k' iv pt ad ad',
-  (k' <> k \/ ad' <> ad) -> aead_dec k' (aead_enc k iv pt ad) ad' = None.
-
-Theorem wrong_key_or_ad_rejected k k' h iv ad ad' b :
-  write_encrypted_binary (aead_enc k) h iv ad = Ok b ->
-  blen (encrypted_ct (aead_enc k) h iv ad) < 18446744073709551616 ->
-  (k' <> k \/ ad' <> ad) -> read_encrypted k' b ad' = Err.
-Proof.
-  unfold write_encrypted_binary. destruct h as [|e0 t]; [discriminate|]. intros H S W. inversion H; subst b.
-  unfold Untrusted.read_encrypted. rewrite written_binary_decodes by exact S.
-  unfold encrypted_ct. rewrite aead_auth by exact W. reflexivity.
-Qed.
 
 Theorem right_key_reads_serialized_keyset k h iv ad b :
   write_encrypted_binary (aead_enc k) h iv ad = Ok b ->
